@@ -190,6 +190,9 @@ func checkC08(e *Env) {
 		mu.Unlock()
 	})
 
+	// the concurrent flavour of this monitor (C12 is the full treatment)
+	concCalls := e.concurrentSmoke(drv, "C08", e.smokePool("C08", "chk"), e.pick(4, 12), e.pick(200, 1000))
+
 	// well-formedness of what the API emitted
 	py := e.Py()
 	complete := 0
@@ -262,6 +265,7 @@ func checkC08(e *Env) {
 	e.WriteEvidence("exploration", map[string]any{
 		"evaluations":                       stats.Ops,
 		"distinct_nontrivial":               dist.Len(),
+		"calls_repeated_under_concurrency":  concCalls,
 		"rule":                              "finite domain enumerated completely: for each of the 10 languages and each index 0..2047, the word the API emits at the first position of a 12-word sentence and at the last-but-one position of a 24-word sentence is compared byte-for-byte with the golden list; the 2048 emitted words per language are checked for distinctness, non-emptiness, absence of Unicode white space and NFKD stability (CPython); for each word four 24-word reference sentences containing it must be accepted and the same sentences with the word replaced by its list neighbour must get the reference decoder's verdict; per language the enumeration is repeated in a process that first went through 120 failed validations (typo'd tokens resembling list words); the source files under internal/wordlist are parsed and compared literal by literal; non-trivial = every (language, index); distinct = (language, index) pairs observed through the API",
 		"samples":                           smp.List(),
 		"exhaustive":                        true,
